@@ -626,7 +626,9 @@ func checkC07(run *mon.Run, rng *mon.Rand, thorough bool) {
 	base.L2.Fund(c.existing.Addr, sdk.NewCoin("unative", math.NewInt(1000)))
 	for i := 0; i < 2; i++ {
 		if r := base.L2.Deliver(base.DepositMsg(base.Executors[0], base.NextL1Seq(), "l1x", c.existing.String(), "uinit", math.NewInt(5000), nil)); r.Class != sim.OK {
-			panic(r.ErrString())
+			// the plainest deposit there is, relayed in order by the first configured executor, to an existing account
+			run.Fail("C07.bridge_not_stalled", "c07.plain_deposit_failed", []string{fmt.Sprintf("deposit %d of 5000 uinit to an existing account by executor[0] of %d configured executors -> %s", i+1, len(base.Executors), r.ErrString())}, "a plain in-order deposit relayed by a configured executor failed (the bridge is stalled): %s", r.ErrString())
+			return
 		}
 	}
 	// a blocked module account that already holds bridged tokens (e.g. collected fees)
